@@ -17,13 +17,13 @@ TECHNIQUE = 'bounded exhaustive enumeration of tree shapes x head assignments, s
 def plan(tier, seed):
     specs = [(2, 1), (3, 1), (4, 1), (5, 1), (6, 0)] if tier == 'quick' else \
             [(2, 2), (3, 2), (4, 2), (5, 1), (6, 1), (7, 0)]
-    chunks = sweep.shape_chunks(specs, per_chunk=24, tier=tier)
+    chunks = sweep.shape_chunks(specs, per_chunk=24, big=True, tier=tier)
     for n in range(2, (6 if tier == 'quick' else 7)):
         total = len(sweep.base_shapes(n))
         for lo in range(0, total, 200):
             chunks.append({'kind': 'cli', 'n': n, 'lo': lo, 'hi': min(total, lo + 200)})
     return {
-        'chunks': chunks,
+        'chunks': chunks + [{'kind': 'clipipe'}],
         'rule': 'every hierarchy over n tokens with up to u unary insertions x every head assignment (one head '
                 'child per constituent, expressed through HD edges) x {with, without root_attach first}; '
                 'boyd_split alone (blocks, head block, marking/numbering via get_label and, for discontinuous inputs, as written by the export 3 / export 4 / discobrackets writers and read back by the independent decoders) and the full pipeline against the '
@@ -32,7 +32,8 @@ def plan(tier, seed):
                 'discontinuous',
         'bound': ', '.join('n=%d:u<=%d' % s for s in specs),
         'exhaustive': True,
-        'assumptions': ['head assignments are driven through edge labels read by negra_mark_heads',
+        'assumptions': ['driver differential (vt/clipipe.py): `treetools transform` with the pipelines that involve this operation, with and without --split, on a six-sentence corpus must write what the named functions give when applied by the harness in the given order',
+                        'head assignments are driven through edge labels read by negra_mark_heads',
                         'child lists are stored in token order or reversed (quick: alternating per case; thorough: both)'],
     }
 
@@ -317,7 +318,7 @@ def check_cli(n, lo, hi):
         return [{'kind': 'cli-failed', 'where': 'transform --trans', 'case': case,
                  'detail': 'exit status %r %s' % (st, cli.describe(exc)), 'what': 'pipeline through the CLI failed'}]
     try:
-        got = codecs.decode_export(open(dest, encoding='utf-8').read())
+        got = codecs.decode_export(codecs.read_out(dest))
     except codecs.DecodeError as e:
         return [{'kind': 'undecodable', 'where': 'transform --trans', 'case': case, 'detail': str(e),
                  'what': 'pipeline output is not an export file'}]
@@ -336,6 +337,9 @@ def check_cli(n, lo, hi):
 
 
 def check_case(case):
+    if 'clipipe' in case:
+        from .. import clipipe
+        return clipipe.replay(case)
     if case.get('cli'):
         with quiet():
             return check_cli(case['n'], case['lo'], case['hi'])
@@ -344,6 +348,11 @@ def check_case(case):
 
 
 def run_chunk(chunk):
+    if chunk.get('kind') == 'clipipe':
+        from .. import clipipe
+        res = Result()
+        clipipe.run_property(ID, res)
+        return res
     res = Result()
     if chunk.get('kind') == 'cli':
         with quiet():
